@@ -93,7 +93,8 @@ def tsan_witness(ctx):
             p = subprocess.run([binary, str(th), str(iters), str(ctx.seed + i)], stdout=subprocess.PIPE, stderr=subprocess.PIPE,
                                text=True, env=e, timeout=1500)
         except subprocess.TimeoutExpired:
-            raise core.Infra("TSan witness timed out")
+            ctx.notes.append("TSan witness (%d threads) inconclusive: not finished within the time limit on this machine" % th)
+            continue
         n += 1
         if p.returncode != 0:
             what = (p.stderr or "")[:3000]
